@@ -3,6 +3,7 @@ from ..gens import *
 
 ID = "C01"
 LEAN_MODULE = "Ucfg.Props.C01"
+LEVEL_TEXT = "Theorems over the merge model for every policy (pointwise dictionary merge, survival of keys, right-wins for non-containers, append/prepend/replace order and length); model tied to merge.go by differential runs incl. merged-config sources; independent Lean spec (Spec.C01) as oracle on the implementation's output."
 CORRESPONDENCE = "Merge.mergeCfg/Normalize.cfgMerge ~ (*Config).Merge"
 RULE = ("pairs and chains (1-3 merges) of plain data trees over a 5-key alphabet, depth <= 4 (thorough: 6), B derived from A by "
         "mutations that force shape conflicts at the same key (primitive/object/list/nil/empty x same), unequal list lengths; five "
